@@ -759,7 +759,8 @@ def main():
     items = [('fetch', t, op, 0) for t, op in chosen]
     special = [HALT_SLOT, EI_SLOT] + list(LDAIR) + [('main', 0x00), ('main', 0xF3), ('ED', 0x4D), ('DD', 0x76), ('FD', 0xFB), ('ED', 0x47)]
     for fl in (1, 2, 3):
-        items += [('fetch', t, op, fl) for t, op in (special if args.tier == 'quick' else slots)]
+        # the flag rules name three opcodes: every eighth slot is enough to see that the others are unaffected
+        items += [('fetch', t, op, fl) for t, op in (special if args.tier == 'quick' else special + [sl for k, sl in enumerate(slots) if k % 8 == 0 and sl not in special])]
     csel = [sl for k, sl in enumerate(slots) if (k % 16 == 0 or sl in special or (sl[0] in ('DDCB', 'FDCB') and sl[1] in quick_ixcb)) and light(sl)] if args.tier == 'quick' else slots
     items += [('cframe', t, op) for t, op in csel]
     for stype in ('z80', 'szx'):
@@ -771,7 +772,7 @@ def main():
         PROP, args,
         functions=['skoolkit.rzxplay.process_block (frame loop, frame-boundary interrupt rules)', 'skoolkit.rzxplay.RZXTracer.next_frame / read_port / set_input_rec', 'skoolkit.rzxplay.trace_exec',
                    'skoolkit.rzxplay.write_rzx / parse_rzx', 'skoolkit.simulator.Simulator closures and accept_interrupt (int_active = 0)', 'skoolkit.traceutils.disassemble', 'c/csimulator.c CSimulator_exec_frame and the opcode handlers it dispatches to (LLVM IR, clang -O1)'],
-        bounds={'frame loop': 'one frame holding exactly one instruction, %d opcode slots (quick: every eighth slot of each table; thorough: all 1792), arbitrary CPU state and memory, playback flags 0 for all slots and 1-3 for %s; the next frame has 1-1000 fetches (symbolic) and is not played' % (len(chosen), 'the slots the rules name plus a few others' if args.tier == 'quick' else 'all slots'),
+        bounds={'frame loop': 'one frame holding exactly one instruction, %d opcode slots (quick: every eighth slot of each table; thorough: all 1792), arbitrary CPU state and memory, playback flags 0 for all chosen slots and 1-3 for %s; the next frame has 1-1000 fetches (symbolic) and is not played' % (len(chosen), 'the slots the rules name plus a few others' if args.tier == 'quick' else 'those plus every eighth slot'),
                 'codec': 'recordings of 1-%d frames with symbolic fetch counters and 0-2 symbolic port readings per frame, written from frame index 0-2, Z80 and SZX embedded snapshots' % (3 if args.tier == 'quick' else 8),
                 'C frame loop': 'CSimulator_exec_frame against the Python loop, one frame of one instruction, %d slots' % len(csel),
                 'outside': 'whole recordings (more than one instruction per frame), desynchronisation detection, rzxinfo text, 128K paging during playback, contended playback, frames repeated with the 65535 marker'},
